@@ -1,6 +1,7 @@
 """C18 - the white-box DES tables compute exactly DES under the embedded key.
 Each generated table network is a 'program' validated against the reference DES."""
-from mc.engine import Sub, InternalError
+from mc.engine import Sub, InternalError, pristine
+import importlib, itertools
 from mc.common import single_bits, DATA, expander
 from mc.checks import cipherfam as F
 from mc.refs import blockciphers as R
@@ -116,6 +117,52 @@ def run_manyblocks(ctx, pt):
             ctx.eq('C18/whitebox-enc-vs-FIPS46-3/many-blocks-on-one-object', r, ('ok', RDES.des_enc(key, b)))
 
 
+ORDER_KEYS = [bytes.fromhex('133457799bbcdff1'), expander(8, 11)]
+
+
+def pts_roundorder(tier):
+    return [(ki, r1, tier) for ki in range(len(ORDER_KEYS) if tier == 'thorough' else 1) for r1 in range(16)]
+
+
+def run_roundorder(ctx, pt):
+    """the sixteen round tables of one key requested in any order: every sequence of two rounds (thorough: of three), each
+    on a freshly loaded module; the table of a round does not depend on which rounds were generated before it.  Expected
+    tables: the ones generated in the order 0..15 by a forked child (the order the `programs` subcheck validates against DES)."""
+    from crysp.bits import Bits
+    from crysp import wb
+    ki, r1, tier = pt
+    key = ORDER_KEYS[ki]
+
+    def inorder():
+        from crysp import wb as W
+        bK = Bits(key, 64)
+        return [W.table_rKT(r, bK)[1] for r in range(16)]
+    ref = pristine(inorder)
+    if not (isinstance(ref, list) and len(ref) == 16):
+        raise InternalError('in-order tables could not be generated: %r' % (ref,))
+    third = list(range(16)) if tier == 'thorough' else [0, 1, 2, 3, 7, 15]
+    for r2 in range(16):
+        for r3 in [None] + (third if (tier == 'thorough' or (r1 in third and r2 in third)) else []):
+            W = importlib.reload(wb)
+            bK = Bits(key, 64)
+            seq = [r for r in (r1, r2, r3) if r is not None]
+            got = [ctx.attempt(lambda: W.table_rKT(r, bK)[1]) for r in seq]
+            ctx.eq('C18/round-tables-depend-on-the-order-of-generation', got, [('ok', ref[r]) for r in seq])
+    # and whole networks built in unusual orders, run against DES
+    if r1 == 0:
+        orders = [list(reversed(range(16))), list(range(0, 16, 2)) + list(range(1, 16, 2)), list(range(1, 16, 2)) + list(range(0, 16, 2)),
+                  [0, 5, 10, 15, 1, 6, 11, 2, 7, 12, 3, 8, 13, 4, 9, 14]]
+        for od in orders:
+            W = importlib.reload(wb)
+            bK = Bits(key, 64)
+            KT = [None] * 16
+            for r in od:
+                KT[r] = W.table_rKT(r, bK)[1]
+            net = W.WhiteDES(KT, W.table_M1(), W.table_M2()[0], W.table_M3())
+            for b in (expander(8, 8), bytes(8)):
+                ctx.eq('C18/whitebox-enc-vs-FIPS46-3/tables-generated-out-of-order', ctx.attempt(net.enc, b), ('ok', RDES.des_enc(key, b)))
+
+
 def pts_inplace(tier):
     return [(0,), (1,)]
 
@@ -156,6 +203,8 @@ def subchecks():
     return [Sub('internal-states', pts_states, run_states, engine='P', exhaustive=False, chunk=1,
                 bound='2 keys x every round 1..16 x 10 internal (L,R) states (zero, all-ones, one zero half, single bits): the block reaching that state is computed with the reference DES and encrypted by the table network'),
             Sub('many-blocks', pts_manyblocks, run_manyblocks, engine='H', exhaustive=False, chunk=1, bound='thorough only: 1040 distinct blocks through one WhiteDES object, then the first 8 again'),
+            Sub('round-order', pts_roundorder, run_roundorder, engine='H', chunk=1,
+                bound='1 key (thorough 2): every sequence of two round numbers and every sequence of three over {0,1,2,3,7,15} (thorough: all 4096), each on a freshly loaded module: the tables equal the ones generated in the order 0..15; 4 whole networks generated in reversed / even-odd / odd-even / strided order vs DES'),
             Sub('key-object-reuse', pts_inplace, run_inplace, engine='H', chunk=1, bound='tables generated from one Bits key object that is overwritten in place with another key between two generations'),
             Sub('programs', pts, run, engine='P', exhaustive=False, chunk=1,
                 bound='one generated table network per key: 64 single-bit keys (incl. the 8 parity bits), zero, all-ones, 4 weak + 12 semi-weak keys, patterns, 8 parity-only variants (quick: 37 keys); each run on the 64 single-bit blocks, zero, all-ones and 4 patterns (quick: 22 blocks); structure of every table; M1/M2/M3 identical across keys and calls; each program is generated right after the programs of two neighbouring keys (one key bit / one parity bit away)')]
